@@ -95,7 +95,7 @@ def make_chooser():
     """Chooser bound to the current CrossHair state space (imported lazily: replay never imports CrossHair)."""
     import z3
     from crosshair.core import deep_realize, realize
-    from crosshair.libimpl.builtinslib import SymbolicBool, SymbolicFloat, SymbolicInt
+    from crosshair.libimpl.builtinslib import PreciseIeeeSymbolicFloat, SymbolicBool, SymbolicInt
     from crosshair.statespace import context_statespace
     from crosshair.tracers import NoTracing, ResumedTracing
     from crosshair.util import IgnoreAttempt
@@ -134,7 +134,7 @@ def make_chooser():
 
         def sym_float(self, name):
             with NoTracing():
-                v = SymbolicFloat(self._name(name))
+                v = PreciseIeeeSymbolicFloat(self._name(name), float)
                 self._syms[len(self.trace)] = v
                 self.trace.append([name, None])
                 return v
